@@ -84,6 +84,8 @@ def load_fixture(name):
     sub, inp = FIXTURES[name]
     path = os.path.join(TEST_ROOT, sub) if sub else TEST_ROOT
     o, r = test_reactors.loadTestReactor(path, inputFileName=inp, customSettings={"reloadDBName": "reloadingDB.h5"})
+    if name not in NEG_BASELINE:
+        NEG_BASELINE[name] = count_negative(r)
     return o, r
 
 
@@ -227,7 +229,8 @@ def dump(r):
 
     out = {}
     for c in all_objects(r):
-        rec = {"family": class_family(c), "type": type(c).__name__, "name": c.name, "kids": tuple(int(k.p.serialNum) for k in c),
+        rec = {"family": class_family(c), "gridShared": c.spatialGrid is not None and c.spatialGrid.armiObject is not c,
+               "type": type(c).__name__, "name": c.name, "kids": tuple(int(k.p.serialNum) for k in c),
                "parent": None if c.parent is None else int(c.parent.p.serialNum),
                "loc": loc_rep(c.spatialLocator), "xyz": global_xyz(c.spatialLocator), "grid": grid_rep(c.spatialGrid)}
         if isinstance(c, Component):
@@ -316,7 +319,8 @@ def compare(d0, d1, what):
             diffs.append((key, f"{what}: same global coordinates", {**ident, "before": a["xyz"], "after": b["xyz"]}))
         if a["grid"] != b["grid"]:
             fields = [f for f in (a["grid"] or {}) if (b["grid"] or {}).get(f) != a["grid"][f]] if a["grid"] and b["grid"] else ["presence"]
-            diffs.append(("grid", f"{what}: same grid", {**ident, "fields": fields,
+            gkey = "shared-grid" if (a.get("gridShared") and fields == ["probeGlobalCoords"]) else "grid"
+            diffs.append((gkey, f"{what}: same grid", {**ident, "fields": fields,
                                                        "before": {f: (a["grid"] or {}).get(f) for f in fields[:2]},
                                                        "after": {f: (b["grid"] or {}).get(f) for f in fields[:2]}}))
         for k in ("material", "T"):
@@ -371,7 +375,8 @@ def new_value(rng, cur, pname, idx):
         return int(cur) + rng.choice([-3, 1, 2, 7, 1000])
     if cur is None:
         # one number of dimensions per parameter name (differing ndim inside one parameter is refused at write time)
-        kind = "1d" if sum(pname.encode()) % 2 == 0 else "2d"
+        kind = "2d" if pname.startswith("pin") else "1d" if pname.startswith("mgFlux") else \
+            ("1d" if sum(pname.encode()) % 2 == 0 else "2d")
         if kind == "1d":
             return np.array([common.dyadic(rng, -9, 9, 6) for _ in range(1 + (idx % 4) if rng.random() < 0.6 else 3)])
         rows = 2 + idx % 5 if rng.random() < 0.7 else 3
@@ -544,6 +549,7 @@ def load_db(o, r, fn):
 
 
 KNOWN_KEYS = {
+    "shared-grid": "shared-grid-instance-loads-as-per-object-copies",
     "int-reads-back-as-float": "int-reads-back-as-float-in-mixed-column",
     "child-order": "child-order-after-unsorted-edit",
     "coordinate-location-loads-as-index": "coordinate-location-in-gridded-parent-loads-as-index",
@@ -571,6 +577,18 @@ class LoadFailed(Exception):
     pass
 
 
+NEG_BASELINE = {}     # fixture -> number of negative-volume components in the unedited input (c5g7 ships 12)
+
+
+def count_negative(r):
+    n = 0
+    for c in all_objects(r):
+        if class_family(c) == "Component":
+            with contextlib.suppress(Exception):
+                n += c.getVolume() < 0
+    return n
+
+
 def _load_and_dump(ctx, fixture, o, r, fn, ops, stage):
     """load + canonical dump of the loaded reactor; an exception here is a violation ("loads back")"""
     try:
@@ -589,7 +607,8 @@ def roundtrip_checks(ctx, fixture, o, r, ops, tag, excluded=None, deep=True):
         d0 = dump(r)
     except Exception as e:  # noqa: BLE001 - the EDITED original cannot even be queried: not a valid state to save
         raise WriteRejected("original state invalid: " + type(e).__name__) from e
-    if any(isinstance(v.get("volume"), float) and v["volume"] < 0 for v in d0.values()):
+    nneg = sum(1 for v in d0.values() if isinstance(v.get("volume"), float) and v["volume"] < 0)
+    if nneg > NEG_BASELINE.get(fixture, 0):
         # the edits (temperatures) pushed a component through its neighbour: armi itself refuses such models
         raise WriteRejected("original state invalid: negative component volume")
     write_db(o, r, fn)
@@ -656,21 +675,13 @@ def fmt_location_data(labels, data):
     return "[" + ",".join(out) + "]"
 
 
-def layout_correspondence(ctx, fixture, r, fn, r2, req, impl, cases):
-    """model flatten vs real Layout(comp=r); model compose/unpack vs the file's layout datasets and the loaded tree"""
-    import h5py
-    from armi.bookkeeping.db import layout as lay
-
-    w = Wire()
-    tree = w.tree(r)
-    L = lay.Layout((lay.DB_MAJOR, lay.DB_MINOR), comp=r)
+def layout_line(L, w):
+    """the real Layout arrays in the driver's canonical form"""
     tmap = {}
     for t in L.type:
         tmap.setdefault(t, len(tmap))
-    gmap = []
-    for gp in L.gridParams:
-        gmap.append(w.gridkeys.get(gp, "?"))
-    line = " ".join([
+    gmap = [w.gridkeys.get(gp, "?") for gp in L.gridParams]
+    return " ".join([
         "[" + ",".join(str(tmap[t]) for t in L.type) + "]",
         "[" + ",".join(str(int(s)) for s in L.serialNum) + "]",
         "[" + ",".join(str(int(n)) for n in L.numChildren) + "]",
@@ -680,6 +691,17 @@ def layout_correspondence(ctx, fixture, r, fn, r2, req, impl, cases):
         "[" + ",".join(L.locationType) + "]",
         fmt_location_data(L.locationType, L.location),
         "T"])
+
+
+def layout_correspondence(ctx, fixture, r, fn, r2, req, impl, cases):
+    """model flatten vs real Layout(comp=r); model compose/unpack vs the file's layout datasets and the loaded tree"""
+    import h5py
+    from armi.bookkeeping.db import layout as lay
+
+    w = Wire()
+    tree = w.tree(r)
+    L = lay.Layout((lay.DB_MAJOR, lay.DB_MINOR), comp=r)
+    line = layout_line(L, w)
     req.append("flatten " + tree); impl.append(line); cases.append({"fixture": fixture, "op": "flatten"})
     # ancestors
     pairs = "[" + ",".join(f"[{int(s)},{int(n)}]" for s, n in zip(L.serialNum, L.numChildren)) + "]"
@@ -731,6 +753,128 @@ def layout_correspondence(ctx, fixture, r, fn, r2, req, impl, cases):
     ctx.case((fixture, "layout", len(types), hash(tree)), nontrivial=True,
              sample={"fixture": fixture, "rows": len(types), "classes": len(tm), "grids": len(L.gridParams),
                      "multiIndex": sum(1 for x in labels if x.startswith("M:"))} if len(ctx.samples) < 3 else None)
+
+
+# --------------------------------------------------------------------------- tie (i) on generated composite trees
+def synthetic_layouts(ctx, req, impl, cases):
+    """random trees of plain Composites (4 classes; cartesian / hex grids, some shared parameters; index,
+    coordinate, multi-index and absent locators; 0..5 children) -> the real Layout(comp=root) and the real
+    _unpackLocations, against the model's flatten / indexInData / grid table / pack+unpack / compose / ancestors"""
+    from armi.bookkeeping.db import layout as lay
+    from armi.reactor import composites, grids
+
+    rng = ctx.rng
+
+    class VA(composites.Composite):
+        pass
+
+    class VB(composites.Composite):
+        pass
+
+    class VC(composites.Composite):
+        pass
+
+    klasses = [VA, VB, VC, composites.Composite]
+    counter = [0]
+
+    def mkgrid(kind, owner):
+        if kind == 0:
+            return grids.CartesianGrid.fromRectangle(1.0, 1.0, armiObject=owner)
+        if kind == 1:
+            return grids.HexGrid.fromPitch(1.5, armiObject=owner)
+        return grids.CartesianGrid.fromRectangle(2.0, 3.0, armiObject=owner)
+
+    def build(depth):
+        counter[0] += 1
+        c = rng.choice(klasses)(f"o{counter[0]}")
+        if rng.random() < 0.7:
+            c.spatialGrid = mkgrid(rng.randrange(3), c)
+        nk = 0 if depth == 0 else rng.choice([0, 1, 1, 2, 3, 5])
+        if c.spatialGrid is None:
+            nk = min(nk, 1)
+        used = set()
+        for _ in range(nk):
+            ch = build(depth - 1)
+            if c.spatialGrid is not None:
+                while True:
+                    ijk = (rng.randint(-3, 3), rng.randint(-3, 3), rng.randint(0, 2))
+                    if ijk not in used:
+                        used.add(ijk)
+                        break
+                x = rng.random()
+                if nk == 1 and x < 0.3:
+                    m = grids.MultiIndexLocation(c.spatialGrid)
+                    for _q in range(rng.randint(1, 5)):
+                        m.append(c.spatialGrid[rng.randint(-2, 2), rng.randint(-2, 2), 0])
+                    ch.spatialLocator = m
+                elif nk == 1 and x < 0.5:
+                    ch.spatialLocator = grids.CoordinateLocation(common.dyadic(rng, -9, 9, 4), common.dyadic(rng, -9, 9, 4), 1.25, c.spatialGrid)
+                else:
+                    ch.spatialLocator = c.spatialGrid[ijk]
+            else:
+                ch.spatialLocator = None if rng.random() < 0.5 else grids.CoordinateLocation(1.5, 2.25, -3.0, None)
+            c.add(ch)
+        return c
+
+    for t in range(ctx.pick(120, 1500)):
+        root = build(rng.randint(1, 4))
+        w = Wire()
+        tree = w.tree(root)
+        L = lay.Layout((lay.DB_MAJOR, lay.DB_MINOR), comp=root)
+        req.append("flatten " + tree); impl.append(layout_line(L, w)); cases.append({"fixture": "synthetic", "op": "flatten", "tree": tree[:2000]})
+        pairs = "[" + ",".join(f"[{int(s)},{int(n)}]" for s, n in zip(L.serialNum, L.numChildren)) + "]"
+        anc = lay.Layout.computeAncestors(list(L.serialNum), list(L.numChildren))
+        req.append("ancestors " + pairs); impl.append("[" + ",".join("_" if a is None else str(int(a)) for a in anc) + "]")
+        cases.append({"fixture": "synthetic", "op": "ancestors", "tree": tree[:2000]})
+        # read side: rows + labels + data as they would be stored; real _unpackLocations; expected tree = the original
+        tm = {}
+        for ty in L.type:
+            tm.setdefault(ty, len(tm))
+        rows = "[" + ",".join(f"[{tm[ty]},{int(s)},{int(n)},{'_' if g is None else int(g)}]"
+                              for ty, s, n, g in zip(L.type, L.serialNum, L.numChildren, L.gridIndex)) + "]"
+        data = [tuple(float(v) for v in d) for d in L.location]      # the location dataset is float64
+        req.append(f"compose {rows} [{','.join(L.locationType)}] {fmt_location_data(L.locationType, data)}")
+        unpacked = lay._unpackLocations(L.locationType, data, lay.DB_MINOR)
+        it = iter(zip(L.type, L.serialNum, L.numChildren, L.gridIndex, L.locationType, unpacked))
+
+        def expect():
+            ty, sn, nk, g, lab, loc = next(it)
+            if loc is None:
+                ls = "n"
+            elif isinstance(loc, list):
+                ls = "[m,[" + ",".join("[" + ",".join(str(int(v)) for v in s) + "]" for s in loc) + "]]"
+            elif lab == "C":
+                ls = "[c," + ",".join(str(fcode(v)) for v in loc) + "]"
+            else:
+                ls = "[i," + ",".join(str(int(v)) for v in loc) + "]"
+            kids = [expect() for _ in range(int(nk))]
+            return f"[{tm[ty]},{int(sn)},{ls},{'_' if g is None else int(g)},[" + ",".join(kids) + "]]"
+
+        impl.append(expect()); cases.append({"fixture": "synthetic", "op": "compose", "tree": tree[:2000]})
+        # oracle on the real objects: the stored rows describe the tree (pre-order, child counts, own class index)
+        order = []
+
+        def walk(c):
+            order.append(c)
+            for k in sorted(list(c)):
+                walk(k)
+
+        walk(root)
+        if [int(c.p.serialNum) for c in order] != [int(x) for x in L.serialNum] or [len(c) for c in order] != [int(x) for x in L.numChildren]:
+            ctx.fail("layout-preorder", "the layout lists the objects depth-first with their child counts", {"fixture": "synthetic", "tree": tree[:2000]})
+        seen = {}
+        for c, idx in zip(order, L.indexInData):
+            if int(idx) != seen.get(type(c), 0):
+                ctx.fail("layout-indexInData", "indexInData = number of earlier objects of the same class", {"fixture": "synthetic", "tree": tree[:2000]})
+                break
+            seen[type(c)] = seen.get(type(c), 0) + 1
+        for c, gi in zip(order, L.gridIndex):
+            if (c.spatialGrid is None) != (gi is None) or (gi is not None and L.gridParams[gi] != (type(c.spatialGrid).__name__, c.spatialGrid.reduce())):
+                ctx.fail("layout-gridIndex", "gridIndex points at the object's own grid parameters", {"fixture": "synthetic", "tree": tree[:2000]})
+                break
+        ctx.case(("synthetic", tree), nontrivial=len(order) > 1,
+                 sample={"synthetic tree": tree[:200], "rows": len(order)} if t == 5 else None)
+    ctx.count("generated composite trees", ctx.pick(120, 1500))
 
 
 # --------------------------------------------------------------------------- excluded points / known findings
@@ -864,6 +1008,8 @@ def run(ctx):
                 ctx.case(("reference", "fullcore", len(ops)), nontrivial=True)
                 ctx.count("reference: third-core -> full-core conversion round trip")
         excluded_points(ctx, req, impl, cases)
+        with silence():
+            synthetic_layouts(ctx, req, impl, cases)
     for op in set(c["op"] for c in cases):
         ctx.count("model requests: " + op, sum(1 for c in cases if c["op"] == op))
     model = lean_run("Layout", req)
